@@ -42,7 +42,14 @@ def _samples(poly, noff, n=3):
     return s
 
 
-def build_prior(poly, noff, status, alt_units=False):
+NONNORMAL = [
+    lambda pm, n: pm.Uniform(n, -5.0, 5.0), lambda pm, n: pm.HalfNormal(n, 3.0), lambda pm, n: pm.LogNormal(n, 0.0, 1.0),
+    lambda pm, n: pm.TruncatedNormal(n, mu=0.0, sigma=3.0, lower=-1.0, upper=5.0), lambda pm, n: pm.SkewNormal(n, mu=0.0, sigma=3.0, alpha=2.0),
+    lambda pm, n: pm.StudentT(n, nu=3.0, mu=0.0, sigma=3.0), lambda pm, n: pm.Laplace(n, 0.0, 3.0), lambda pm, n: pm.Cauchy(n, 0.0, 3.0),
+]
+
+
+def build_prior(poly, noff, status, alt_units=False, variant=None):
     """returns JokerPrior built through the plain constructor with the given per-parameter statuses"""
     import astropy.units as u
     import pymc as pm
@@ -68,7 +75,8 @@ def build_prior(poly, noff, status, alt_units=False):
             if st == "const":
                 var = pm.Deterministic(name, pt.constant(1.5))
             elif st == "nonnormal":
-                var = pm.Uniform(name, -5.0, 5.0)
+                fam = NONNORMAL[(len(name) + poly + noff + sum(map(ord, name))) % len(NONNORMAL)] if variant is None else NONNORMAL[variant % len(NONNORMAL)]
+                var = fam(pm, name)
             elif linear:
                 var = pm.Normal(name, 0.5, 3.0)
             elif name == "e":
@@ -96,7 +104,7 @@ def exec_prior(case):
     tr = {"id": case["id"], "kind": "prior", "poly": case["poly"], "noff": case["noff"], "status": case["status"], "via": "JokerPrior",
           "raised": False, "names": [], "kernelok": True, "exc": ""}
     try:
-        prior = build_prior(case["poly"], case["noff"], case["status"], alt_units=case.get("alt", False))
+        prior = build_prior(case["poly"], case["noff"], case["status"], alt_units=case.get("alt", False), variant=case.get("variant"))
         tr["names"] = list(prior.par_names)
     except Exception as ex:
         tr["raised"] = True
@@ -136,6 +144,42 @@ def exec_data(case):
         ll = TheJoker(prior).marginal_ln_likelihood(data, _samples(1, noff), in_memory=case.get("inmem", False))
         if len(ll) != 3:
             tr["raised"] = True
+    except Exception as ex:
+        tr["raised"] = True
+        tr["exc"] = "%s: %s" % (type(ex).__name__, str(ex)[:120])
+    return tr
+
+
+def exec_data_history(case):
+    """two calls on ONE TheJoker with the SAME list / dict object, mutated in place in between: the second call must be
+    validated like a first call (second state given by the case)"""
+    from thejoker import TheJoker
+    noff = case["noff"]
+    status = {p: "ok" for p in ["P", "e", "omega", "M0", "s", "K", "v0"] + ["dv0_%d" % i for i in range(1, noff + 1)]}
+    prior = build_prior(1, noff, status)
+    joker = TheJoker(prior)
+    good = [_data(4, seed=k, shift=7.0 * k) for k in range(noff + 1)]
+    container = list(good) if case["dkind"] == "list" else {"s%d" % k: d for k, d in enumerate(good)}
+    smp = _samples(1, noff)
+    ll1 = joker.marginal_ln_likelihood(container, smp, in_memory=True)
+    nsrc = noff + 1
+    if case["mut"] == "grow":
+        extra = _data(4, seed=9, shift=50.0)
+        container.append(extra) if case["dkind"] == "list" else container.__setitem__("zz", extra)
+        nsrc += 1
+    elif case["mut"] == "shrink":
+        container.pop() if case["dkind"] == "list" else container.pop("s%d" % noff)
+        nsrc -= 1
+    elif case["mut"] == "cov":
+        c = _data(4, seed=8, cov=True, shift=60.0)
+        if case["dkind"] == "list":
+            container[-1] = c
+        else:
+            container["s%d" % noff] = c
+    tr = {"id": case["id"], "kind": "data", "dkind": case["dkind"], "nsrc": nsrc, "bad": False, "cov": case["mut"] == "cov", "noff": noff,
+          "raised": False, "exc": "", "history": case["mut"]}
+    try:
+        joker.marginal_ln_likelihood(container, smp, in_memory=True)
     except Exception as ex:
         tr["raised"] = True
         tr["exc"] = "%s: %s" % (type(ex).__name__, str(ex)[:120])
@@ -217,7 +261,7 @@ def default_cases(rnd):
 
 
 def _exec(case):
-    return {"prior": exec_prior, "data": exec_data, "default": exec_default}[case["kindx"]](case)
+    return {"prior": exec_prior, "data": exec_data, "default": exec_default, "datahist": exec_data_history}[case["kindx"]](case)
 
 
 def run(ctx, selftest=False):
@@ -241,6 +285,10 @@ def run(ctx, selftest=False):
                 continue
             cases.append({"id": "p-%d" % k, "kindx": "prior", "poly": c["poly"], "noff": c["noff"], "status": st, "alt": bool(k % 2),
                           "run_kernel": bool(c["accept"]), "spec_accept": c["accept"]})
+            if ndef == 1 and "nonnormal" in st.values() and c["poly"] + c["noff"] <= (3 if quick else 9):
+                for var_ in range(len(NONNORMAL)):
+                    cases.append({"id": "p-%d-f%d" % (k, var_), "kindx": "prior", "poly": c["poly"], "noff": c["noff"], "status": st,
+                                  "alt": bool(var_ % 2), "run_kernel": False, "variant": var_})
         else:
             for inmem in ((False,) if quick else (False, True)):
                 cases.append({"id": "d-%d-%d" % (k, inmem), "kindx": "data", "dkind": c["dkind"], "nsrc": c["nsrc"], "bad": c["bad"], "cov": c["cov"],
@@ -250,10 +298,16 @@ def run(ctx, selftest=False):
     for c in default_cases(rnd):
         c["kindx"] = "default"
         cases.append(c)
+    kk = 0
+    for noff in (1, 2):
+        for dk in ("list", "dict"):
+            for mut in ("grow", "shrink", "cov"):
+                cases.append({"id": "dh-%d" % kk, "kindx": "datahist", "noff": noff, "dkind": dk, "mut": mut})
+                kk += 1
     traces = core.pmap(_exec, cases, chunksize=4)
     for c, t in zip(cases, traces):
         ctx.count()
-        if c["kindx"] != "prior" or any(x != "ok" for x in c["status"].values()):
+        if c["kindx"] != "prior" or any(x != "ok" for x in c.get("status", {}).values()):
             ctx.nontrivial((c["kindx"], str(sorted((k, str(v)) for k, v in c.items() if k not in ("id",)))))
     ctx.sample(traces[0]); ctx.sample(traces[-1]); ctx.sample([t for t in traces if t["kind"] == "data"][0])
     verdicts = ctx.validate("ValidationTrace", traces, timeout=3000)
